@@ -234,14 +234,22 @@ func (server *Server) tlsServe(l net.Listener, tlsConfig *tls.Config) error {
 			return err
 		}
 
-		tlsConn := tls.Server(conn, tlsConfig)
-		if err := tlsConn.Handshake(); err != nil {
-			return err
-		}
-		tlsState := tlsConn.ConnectionState()
-
-		go server.receive(tlsConn, &tlsState)
+		go server.tlsReceive(conn, tlsConfig)
 	}
+}
+
+// tlsReceive performs the TLS handshake and handles the client connection.
+func (server *Server) tlsReceive(conn net.Conn, tlsConfig *tls.Config) error {
+	defer recoverConnPanic()
+
+	tlsConn := tls.Server(conn, tlsConfig)
+	if err := tlsConn.Handshake(); err != nil {
+		log.Error(err)
+		return errors.Join(err, conn.Close())
+	}
+	tlsState := tlsConn.ConnectionState()
+
+	return server.receive(tlsConn, &tlsState)
 }
 
 // recoverConnPanic keeps a panic raised while serving one connection from terminating the process.
